@@ -653,7 +653,8 @@ class K3:
             ends = ops[3:3 + 2 * m_]
             gids = [self.ev(o, val) for o in ops[3 + 2 * m_:]]
             if any(g[0] != g[1] for g in gids):
-                # partial pruning: a block is named after one of its own vertices, and never exceeds the size
+                # partial pruning: a block is named after one of its own vertices, never exceeds the size, and the vertices that can
+                # still take its name (exact remaining candidate values, not just the interval) must be able to complete it
                 known = {v_: g[0] for v_, g in enumerate(gids) if g[0] == g[1]}
                 cnt: Dict[int, int] = {}
                 for v_, g_ in known.items():
@@ -662,6 +663,34 @@ class K3:
                         return False
                 if size_ is not None and any(c_ > size_ for c_ in cnt.values()):
                     return False
+                cand: Dict[int, Any] = {}
+                for v_, o_ in enumerate(ops[3 + 2 * m_:]):
+                    if v_ in known:
+                        continue
+                    if isinstance(o_, Obj) and isinstance(o_.attrs.get("op"), Tag) and o_.attrs["op"].name.endswith("VAR") and o_.attrs.get("id") in self.doms:
+                        cand[v_] = set(self.doms[o_.attrs["id"]])
+                    else:
+                        cand[v_] = set(range(gids[v_][0], gids[v_][1] + 1))
+                adj_: Dict[int, List[int]] = {i_: [] for i_ in range(n_)}
+                for k_ in range(m_):
+                    adj_[ends[2 * k_]].append(ends[2 * k_ + 1])
+                    adj_[ends[2 * k_ + 1]].append(ends[2 * k_])
+                for g_ in set(known.values()):
+                    if not (0 <= g_ < n_) or not (known.get(g_) == g_ or (g_ not in known and g_ in cand.get(g_, ()))):
+                        return False
+                    members = [v_ for v_, x_ in known.items() if x_ == g_]
+                    seen_ = {members[0]}
+                    st_ = [members[0]]
+                    while st_:
+                        u_ = st_.pop()
+                        for w_ in adj_[u_]:
+                            if w_ not in seen_ and (known.get(w_) == g_ or (w_ not in known and g_ in cand[w_])):
+                                seen_.add(w_)
+                                st_.append(w_)
+                    if any(v_ not in seen_ for v_ in members) or g_ not in seen_:
+                        return False
+                    if size_ is not None and len(seen_) < size_:
+                        return False
                 return None
             gv = [g[0] for g in gids]
             adj: Dict[int, List[int]] = {i: [] for i in range(n_)}
